@@ -89,27 +89,29 @@ class SFn:
         self.hc = 0
         self.objs = {}            # local name -> {field: coq text} for an OptimalPauliCompiler built by the pinned constructor call
         self.has_key_of = any(isinstance(x, ast.FunctionDef) and x.name == "key_of" and [ast.unparse(y) for y in x.body] == ["return None if p is None else str(p)"] for x in node.body)
-        # a local assigned exactly once, by a top-level statement of the body: an immutable `let`, not part of the threaded state
-        stores = {}
+        # A local is part of the threaded state only when one of its values crosses a control-flow boundary: it is assigned inside a loop body
+        # while being live at the loop's entry, or assigned inside a branch of an `if` and visible after it.  Every other local is a plain `let`
+        # (all its reads are lexically inside the continuation of the assignment that reaches them).  Computed by a first pass (self.mark).
         for n in ast.walk(node):
-            if isinstance(n, ast.Name) and isinstance(n.ctx, ast.Store): stores[n.id] = stores.get(n.id, 0) + 1
-        top = set()
-        for st_ in node.body:
-            if isinstance(st_, (ast.Assign, ast.AnnAssign)):
-                for tg in (st_.targets if isinstance(st_, ast.Assign) else [st_.target]):
-                    for n in ast.walk(tg):
-                        if isinstance(n, ast.Name) and isinstance(n.ctx, ast.Store): top.add(n.id)
-        mutated = set()
-        for n in ast.walk(node):
-            if isinstance(n, ast.Call) and isinstance(n.func, ast.Attribute) and isinstance(n.func.value, ast.Name) and \
-               n.func.attr in ("append", "extend", "add", "pop", "popleft", "insert", "remove", "clear", "sort", "reverse", "update", "setdefault", "discard"): mutated.add(n.func.value.id)
-            if isinstance(n, ast.Subscript) and isinstance(n.ctx, (ast.Store, ast.Del)) and isinstance(n.value, ast.Name): mutated.add(n.value.id)
-            if isinstance(n, ast.AugAssign):
-                for m in ast.walk(n.target):
-                    if isinstance(m, ast.Name): mutated.add(m.id)
             if isinstance(n, (ast.Global, ast.Nonlocal)): bad(n, "global / nonlocal")
-        self.immut = {n for n in top if stores[n] == 1 and n not in mutated}
+        self.stateful = set()
+        self.mark = set()
         self.imm = {}
+
+    @staticmethod
+    def assigned_in(stmts):
+        """base names assigned or mutated anywhere inside stmts"""
+        out = set()
+        for st_ in stmts:
+            for n in ast.walk(st_):
+                if isinstance(n, ast.Name) and isinstance(n.ctx, ast.Store): out.add(n.id)
+                if isinstance(n, ast.Call) and isinstance(n.func, ast.Attribute) and isinstance(n.func.value, ast.Name) and \
+                   n.func.attr in ("append", "extend", "add", "pop", "popleft", "insert", "remove", "clear", "sort", "reverse", "update", "setdefault", "discard"): out.add(n.func.value.id)
+                if isinstance(n, ast.Subscript) and isinstance(n.ctx, (ast.Store, ast.Del)) and isinstance(n.value, ast.Name): out.add(n.value.id)
+                if isinstance(n, ast.AugAssign):
+                    for m in ast.walk(n.target):
+                        if isinstance(m, ast.Name): out.add(m.id)
+        return out
 
     def tv(self, al):
         return self.imm[al] if al in self.imm else self.vars[al]
@@ -131,18 +133,14 @@ class SFn:
 
     def assign_alias(self, name, t, node, env):
         """alias of `name` that has type t (a variable assigned values of several types is split); updates env"""
-        if name in self.immut:
-            if name in self.imm and self.imm[name] != t: bad(node, "type of %s changes" % name)
-            self.imm[name] = t
-            env = dict(env); env[name] = name
-            return name, env
+        tbl = self.vars if name in self.stateful else self.imm
         for al in self.aliases.get(name, []):
-            if self.vars[al] == t:
+            if tbl[al] == t:
                 break
         else:
             al = name if name not in self.aliases else "%s__%d" % (name, len(self.aliases[name]) + 1)
             self.aliases.setdefault(name, []).append(al)
-            self.vars[al] = t
+            tbl[al] = t
         env = dict(env); env[name] = al
         return al, env
 
@@ -470,8 +468,8 @@ class SFn:
             tg = s.targets[0]
             if isinstance(tg, ast.Subscript) and isinstance(tg.value, ast.Name) and not isinstance(tg.slice, ast.Slice):
                 al = env.get(tg.value.id)
-                if al is None or al in self.imm or self.vars[al][0] != "dict": bad(s, "store into a non-dict")
-                dt = self.vars[al]
+                if al is None or self.tv(al)[0] != "dict": bad(s, "store into a non-dict")
+                dt = self.tv(al)
                 kc, kg = self.expr_want(tg.slice, dt[1], env, nar)
                 vc, vg = self.expr_want(s.value, dt[2], env, nar)
                 body, e3 = R(env)
@@ -482,7 +480,7 @@ class SFn:
                 a = v.args[0] if len(v.args) == 1 and not v.keywords else None
                 if not (isinstance(a, ast.Call) and ast.unparse(a.func) == "PauliCompilerConfig" and not a.args and [k_.arg for k_ in a.keywords] == ["k_left", "n_total"]):
                     bad(s, "constructor call other than OptimalPauliCompiler(PauliCompilerConfig(k_left=..., n_total=...))")
-                if tg.id not in self.immut: bad(s, "the compiler object is assigned more than once")
+                if tg.id in self.stateful: bad(s, "the compiler object is reassigned")
                 kc, kt, kg = self.expr(a.keywords[0].value, env, nar); nc, nt, ng = self.expr(a.keywords[1].value, env, nar)
                 if (kt, nt) != (Z, Z): bad(s, "constructor arguments")
                 self.objs[tg.id] = {"k": kc, "n_total": nc, "n_right": "(%s - %s)" % (nc, kc), "fallback_depth": "(%d)" % self.tr.cfg_defaults["fallback_depth"],
@@ -506,7 +504,7 @@ class SFn:
             return self.assign(tg, v, s, rest, env, nar, k, want=getattr(s, "_want", None))
         if isinstance(s, ast.AugAssign) and isinstance(s.op, ast.Add) and isinstance(s.target, ast.Name):
             al = env.get(s.target.id)
-            if al is None or self.tv(al) != Z or al in self.imm: bad(s, "+= on %s" % s.target.id)
+            if al is None or self.tv(al) != Z: bad(s, "+= on %s" % s.target.id)
             c, t, g = self.expr(s.value, env, nar)
             if t != Z: bad(s, "+= of non-int")
             body, e3 = R(env)
@@ -521,6 +519,8 @@ class SFn:
             b, eb = self.block(s.orelse, env, frozenset(set(nar) | self.narrowed_by(s.test, False)), None)
             envs = ([] if self.leaves(s.body) else [ea]) + ([] if (s.orelse and self.leaves(s.orelse)) else [eb])
             env2 = self.merge(env, envs)
+            for nm in self.assigned_in(s.body + s.orelse):
+                if env.get(nm) is not None or env2.get(nm) is not None: self.mark.add(nm)
             nar2 = set(nar)
             if self.leaves(s.body): nar2 |= self.narrowed_by(s.test, False)
             if s.orelse and self.leaves(s.orelse): nar2 |= self.narrowed_by(s.test, True)
@@ -565,7 +565,9 @@ class SFn:
             benv, als = dict(env), []
             for n_, t_ in zip(names, types):
                 al, benv = self.assign_alias(n_, t_, s, benv); als.append(al)
-            stored = {n.id for x in s.body for n in ast.walk(x) if isinstance(n, ast.Name) and isinstance(n.ctx, ast.Store)}
+            stored = self.assigned_in(s.body)
+            for nm in stored | set(names):
+                if env.get(nm) is not None: self.mark.add(nm)
             body, eb = self.block(s.body, benv, frozenset(set(nar) - stored - set(names)), None)
             env2 = self.merge(env, [env, eb])
             env2 = {k_: v for k_, v in env2.items() if k_ in env}          # nothing first assigned in the body is definitely assigned after it
@@ -610,8 +612,8 @@ class SFn:
            and isinstance(s.value.func.value, ast.Name) and len(s.value.args) == 1 and not s.value.keywords:
             x = s.value.func.value.id
             al = env.get(x)
-            if al is None or al in self.imm or self.vars[al][0] != "list": bad(s, "append to a non-list")
-            c, g = self.expr_want(s.value.args[0], self.vars[al][1], env, nar)
+            if al is None or self.tv(al)[0] != "list": bad(s, "append to a non-list")
+            c, g = self.expr_want(s.value.args[0], self.tv(al)[1], env, nar)
             body, e3 = R(env)
             return self.guard(g, "(let v_%s := (v_%s ++ [%s]) in %s)" % (al, al, c, body)), e3
         bad(s, "statement")
@@ -722,7 +724,10 @@ class SFn:
         stored = {n.id for n in ast.walk(self.node) if isinstance(n, ast.Name) and isinstance(n.ctx, ast.Store)}
         env0 = {}
         if stored & set(self.params): bad(self.node, "a parameter is assigned again")
-        self.block(body, env0, frozenset(), None)         # first pass: variables and their types
+        self.block(body, env0, frozenset(), None)         # first pass: which locals are state
+        self.stateful = set(self.mark)
+        self.vars, self.imm, self.aliases, self.hc, self.objs = {}, {}, {}, 0, {}
+        self.block(body, env0, frozenset(), None)         # second pass: variables and their types
         if self.uses_orc and "orc_" not in self.vars: self.vars["orc_"] = ("list", "oans")
         self.hc = 0
         term, _ = self.block(body, env0, frozenset(), None)
